@@ -1,6 +1,8 @@
 """Simulator-owned inputs: every read is a yield point, may stall for virtual
 time, and is logged; the source knows what it served and whether it was read
 again after having signalled end of stream."""
+import os
+
 from auditok.exceptions import AudioIOError
 from auditok.io import AudioSource
 
@@ -111,14 +113,44 @@ class SimPipe:
         self.stall = stall
 
     def served_bytes(self):
-        return b"".join(self.served)
+        # (also what was pulled through the file descriptor, if the program
+        # asked for one)
+        return self._data[:max(self._pos, self._fd_pos())]
 
     closed = False
+    _fd = None
+    _fd_base = 0
 
     def close(self):
         # closing the process's standard input: every later read fails, as
         # with a real file object
         self.closed = True
+
+    def fileno(self):
+        """A program may go below the file object (os.read, select, an
+        unbuffered re-open of the descriptor): it gets a REAL descriptor of
+        an anonymous in-memory file holding the rest of the stream (never the
+        check's own standard input).  `auditok.io.open(fd, buffering=0)` is
+        answered by the seam with a raw view that returns fragments, as a
+        raw read of a pipe does."""
+        if self._fd is None:
+            fd = os.memfd_create("sim_stdin")
+            rest = memoryview(self._data)[self._pos:]
+            while len(rest):
+                k = os.write(fd, rest[:1 << 20])
+                rest = rest[k:]
+            os.lseek(fd, 0, os.SEEK_SET)
+            self._fd, self._fd_base = fd, self._pos
+            FD_PIPES[fd] = self
+        return self._fd
+
+    def _fd_pos(self):
+        if self._fd is None:
+            return 0
+        try:
+            return self._fd_base + os.lseek(self._fd, 0, os.SEEK_CUR)
+        except OSError:
+            return 0
 
     def read(self, n=-1):
         if self.closed:
@@ -195,10 +227,6 @@ class SimPipe:
     def isatty(self):
         return False
 
-    def fileno(self):
-        import io
-        raise io.UnsupportedOperation("fileno (simulated stdin)")
-
     short_reads = 0
     _frag_state = 0
 
@@ -207,6 +235,75 @@ class SimPipe:
         pat = (3, 1, 7, 2, 5, 150, 1, 64)
         self._frag_state += 1
         return max(1, min(k, pat[self._frag_state % len(pat)]))
+
+
+FD_PIPES = {}
+
+
+def release_fds():
+    for fd, p in list(FD_PIPES.items()):
+        try:
+            os.close(fd)
+        except OSError:
+            pass
+        p._fd = None
+    FD_PIPES.clear()
+
+
+class RawPipeView:
+    """What open(<descriptor of the simulated stdin>, "rb", buffering=0)
+    returns: a FileIO-like object whose read() is ONE raw read - on a pipe
+    whatever fragment is available (fault kind `short_read`)."""
+
+    def __init__(self, pipe, closefd=True):
+        self._pipe, self._closefd, self.closed = pipe, closefd, False
+        self.name = pipe._fd
+        self.mode = "rb"
+
+    def read(self, n=-1):
+        if self.closed:
+            raise ValueError("I/O operation on closed file")
+        if n is None or n < 0:
+            return self.readall()
+        return self._pipe.read1(n)
+
+    def readall(self):
+        return self._pipe.read(-1)
+
+    def readinto(self, b):
+        d = self.read(len(b))
+        b[:len(d)] = d
+        return len(d)
+
+    def close(self):
+        self.closed = True
+        if self._closefd:
+            self._pipe.close()
+
+    def fileno(self):
+        return self._pipe.fileno()
+
+    def readable(self):
+        return True
+
+    def writable(self):
+        return False
+
+    def seekable(self):
+        return False
+
+    def isatty(self):
+        return False
+
+    def flush(self):
+        pass
+
+    def __enter__(self):
+        return self
+
+    def __exit__(self, *a):
+        self.close()
+        return False
 
 
 class FakeStdin:
@@ -235,8 +332,7 @@ class FakeStdin:
         return False
 
     def fileno(self):
-        import io
-        raise io.UnsupportedOperation("fileno (simulated stdin)")
+        return self.buffer.fileno()
 
     def close(self):
         self.buffer.close()
